@@ -16,27 +16,35 @@ PROP = "C10"
 LEVEL = "proof"
 GEN_UNITS = []
 SHARD = 6
-COQ_TARGETS = ["Props/C10.vo", "Model/C10Check.vo", "Model/Harness.vo"]
-THEOREM_FILES = ["Props/C10.v"]
+COQ_TARGETS = ["Props/C10.vo", "Props/C10Loop.vo", "Model/C10Check.vo", "Model/Harness.vo"]
+THEOREM_FILES = ["Props/C10.v", "Props/C10Loop.v"]
 COQ_IMPORTS = ("From Coq Require Import List ZArith Bool QArith Qcanon.\n"
                "From PV Require Import Base.Index Np.Array Model.Sparse Model.Repr Model.Harness Model.C10Tucker Model.C10Check.\n")
-RULE = ("integer tensors <= 4x3x3 (1- to 4-way, singleton modes, low-rank + noise and full random), tolerances {0.05..0.9}, "
+RULE = ("integer tensors <= 4x3x3 (1- to 4-way, singleton modes, low-rank + noise, full random, graded spectra with component weights "
+        "2^(g*j)) times a power of two 2^sexp, sexp in {-40..40} and sexp with ||2^sexp X||^2 just above 2^-52 (entries down to 1e-12 / up to 1e12: every hosvd / tucker_als case also runs "
+        "as a scaled copy; the returned core is de-scaled exactly by 2^-sexp before the exact recomputation, so every checked relation "
+        "is the scale-free one), tolerances {1e-5, 1e-3, 1e-2, 0.05..0.9}, "
+        "narrow integer holders (uint8/int16/int32, values 0..255; the starting factors returned by tucker_als(init='nvecs') must span invariant subspaces of the mode Gram matrices of the data), "
         "rank vectors within the mode sizes (all given, all automatic, mixed given/automatic), sequential True/False, all/random mode "
-        "orders, the caller's ranks array observed after the call, tucker_als with list/nvecs/random init and maxiters 1..3; "
+        "orders, the caller's ranks array observed after the call, tucker_als with list/nvecs/random init and maxiters 0..3 (0 must be rejected: finding C10-N01); "
         "non-trivial = more than one cell per two modes and a truncation is possible; distinct = distinct (op,args)")
 CORRESPONDENCE_ONLY = ["eigen-decomposition (LAPACK eigh / ARPACK eigsh): certificate-checked oracle; the Ky-Fan optimality of the leading "
                        "eigenvectors enters C10_hooi_monotone as the stated eigen-oracle contract",
-                       "ttensor.full reconstruction (core x_n U_n) against the exact ttm chain",
-                       "instantiation of the abstract inner-product space / projector hypotheses by concrete dense tensors and ttm with "
-                       "U U^T (commutation of mode products is proved on denotations: C10_core_relation_order)"]
+                       "ttensor.full reconstruction (core x_n U_n) against the exact ttm chain (one mode: C10_ttm_is_projector is proved)",
+                       "the numeric oracles of the transliterated loops (Model/C10Loop.v: Gram/eigh/sort, leading block, ttm, nvecs, norms) and "
+                       "the loops' tie to pyttb (observed ranks, column counts, iters, fit trace; not translator-generated)"]
 ASSUMPTIONS = ["floats are converted to rationals after rounding to the 2^-40 grid (abs. error <= 5e-13, inside the 1e-9 tolerance)",
                "theorems are over exact real arithmetic (stdlib Reals axioms); IEEE rounding is not modelled",
+               "scaled copies: data * 2^sexp is exact in binary floating point, the returned core is multiplied by 2^-sexp (exact) and "
+               "compared with the relations of the unscaled integer data (all checked relations are homogeneous)",
                "C10_spectral_step / C10_hosvd_error_bound take the orthonormal eigenbasis as hypothesis (projectors Q_j resolving the "
                "identity, lambda_j = ||Q_j y||^2); on the samples the LAPACK output is certificate-checked in Qc"]
 EXPLANATION = ("C10_rank_choice / C10_given_ranks / C10_ncols: theorems about the transliterated rank rule and slice of the repaired hosvd; "
                "C10_spectral_step: discarded eigenvalues = discarded projector energy; C10_hosvd_error_bound: rank rule per mode ==> relative "
                "error <= tol for both strategies and every mode order; C10_hooi_monotone / C10_hooi_fit_monotone: ||core|| and the fit never "
-               "decrease under the eigen-oracle contract; C10_tucker_als_fit: fit identity; the correspondence recomputes every claimed "
+               "decrease under the eigen-oracle contract; C10_tucker_als_fit: fit identity; C10_frob_space .. C10_concrete_fit / C10_ttm_is_projector: "
+               "the abstract space and projectors instantiated by dense real tensors and ttm with U U^T; Props/C10Loop.v: bookkeeping of the "
+               "transliterated hosvd / tucker_als loops (validation, ranks, modes treated once, iteration count, fit trace, stop rule); the correspondence recomputes every claimed "
                "relation exactly in Qc on pyttb's returned factors and core.")
 
 GRID = 2 ** 40
@@ -90,6 +98,55 @@ def _tensor(rng, shp):
         if any(data):
             return data
     return [1] * math.prod(shp)
+
+
+def _graded(rng, shp, g):
+    """graded spectrum: components with weights 2^(g*j), j = r-1..0 (integer data), + sparse unit noise"""
+    subs = tgen.all_subs(shp)
+    data = [0] * len(subs)
+    r = rng.choice([2, 3])
+    for j in range(r):
+        vecs = [[rng.choice([-2, -1, 1, 2, 3]) for _ in range(d)] for d in shp]
+        w = 2 ** (g * (r - 1 - j))
+        for k, sb in enumerate(subs):
+            data[k] += w * math.prod(vecs[n][sb[n]] for n in range(len(shp)))
+    for k in range(len(data)):
+        if rng.random() < 0.3:
+            data[k] += rng.choice([-1, 1])
+    return data if any(data) else [1] * len(data)
+
+
+SMALL = [-40, -30, -24, -20, -17]     # 2^-40 ~ 9e-13, 2^-30 ~ 9e-10, 2^-24 ~ 6e-8, 2^-20 ~ 1e-6, 2^-17 ~ 8e-6
+LARGE = [17, 24, 30, 40]
+MID = [-10, -3, 5, 11]
+TIGHT = [Fraction(1, 100), Fraction(1, 1000), Fraction(1, 100000)]
+
+
+def _near_eps_exp(rng, data):
+    """exponent k with ||2^k X||^2 a little above the double-precision unit round-off 2^-52 (between 2^-52 and 2^-40): the
+    magnitude at which an absolute floor / additive constant of the size of eps in a squared-norm quantity starts to matter"""
+    n2 = sum(x * x for x in data)
+    return -((n2.bit_length() + 52) // 2) + rng.randint(1, 6)
+
+
+def _scaled_copies(rng, base, big):
+    """every case again with data * 2^sexp: one small, (one large), automatic-rank hosvd: one with ||X||^2 near eps; thorough: + one moderate"""
+    out = []
+    for c in base:
+        if "dtype" in c.args:             # integer holders cannot be scaled by 2^sexp
+            out.append(c)
+            continue
+        ks = [rng.choice(SMALL)]
+        if big or rng.random() < 0.3:
+            ks.append(rng.choice(LARGE))
+        if c.op in ("hosvd_auto", "hosvd_mixed"):
+            ks.append(_near_eps_exp(rng, c.args["data"]))
+        if big:
+            ks.append(rng.choice(MID))
+        out.append(c)                     # interleaved: a case is followed by its scaled copies
+        for k in dict.fromkeys(ks):
+            out.append(Case(c.op, dict(c.args, sexp=k), c.nontrivial))
+    return out
 
 
 SHAPES_Q = [(3,), (3, 2), (2, 4), (2, 2, 2), (3, 2, 2), (4, 3, 3), (2, 3, 4), (1, 3, 2), (3, 1, 2), (2, 2, 2, 2)]
@@ -148,12 +205,41 @@ def gen_cases(rng, tier):
                 cases.append(Case("tucker_als", {"shape": list(shp), "data": data, "ranks": ranks, "maxiters": rng.randint(1, 3),
                                                  "dimorder": list(rng.choice(perms)), "init": init,
                                                  "stoptol": rng.choice([0.0, 1e-4])}, nt))
-    return cases
+            if d >= 2 and rng.random() < (0.5 if big else 0.25):     # iteration limit 0 (passes the argument checks)
+                cases.append(Case("tucker_als", {"shape": list(shp), "data": _tensor(rng, shp), "ranks": [rng.randint(1, s) for s in shp],
+                                                 "maxiters": 0, "dimorder": list(rng.choice(perms)),
+                                                 "init": rng.choice(["nvecs", "random"]), "stoptol": 1e-4}, nt))
+            # narrow integer data holders (image-like values 0..255 in uint8 / int16 / int32): same values, same answers
+            if d >= 2:
+                dt = rng.choice(["uint8", "uint8", "uint8", "int16", "int16", "int32"])
+                idata = [rng.randint(0, 255) for _ in range(math.prod(shp))]
+                if not any(idata):
+                    idata[0] = 200
+                cases.append(Case("tucker_als", {"shape": list(shp), "data": idata, "ranks": [rng.randint(1, s) for s in shp],
+                                                 "maxiters": rng.randint(1, 3), "dimorder": list(rng.choice(perms)), "init": "nvecs",
+                                                 "stoptol": 0.0, "dtype": dt}, nt))
+                tol = rng.choice(TOLS)
+                cases.append(Case("hosvd_auto", {"shape": list(shp), "data": idata, "tol": [tol.numerator, tol.denominator],
+                                                 "sequential": rng.random() < 0.5, "dimorder": list(rng.choice(perms)), "dtype": dt}, nt))
+    # graded spectra with tight tolerances (unscaled; the scaled copies follow)
+    for shp in shapes:
+        d = len(shp)
+        if d < 2 or math.prod(shp) > 36:
+            continue
+        perms = list(itertools.permutations(range(d)))
+        for _ in range(reps):
+            tol = rng.choice(TIGHT + TOLS[:2])
+            cases.append(Case("hosvd_auto", {"shape": list(shp), "data": _graded(rng, shp, rng.choice([3, 5, 8])),
+                                             "tol": [tol.numerator, tol.denominator], "sequential": rng.random() < 0.5,
+                                             "dimorder": list(rng.choice(perms))}, True))
+    return _scaled_copies(rng, cases, big)
 
 
 # ---------------------------------------------------------------- running pyttb
-def _obs_tt(np, T):
-    core = np.asarray(T.core.data)
+def _obs_tt(np, T, sexp=0):
+    """raw factors and core of the returned ttensor; the core is multiplied by 2^-sexp (exact in binary floating point) so that the
+    relations recomputed in Coq are those of the unscaled integer data"""
+    core = np.asarray(T.core.data) * (2.0 ** (-sexp))
     return {"core_shape": [int(x) for x in core.shape], "core": [rq(x) for x in np.ravel(core, order="F")],
             "factors": [[[rq(x) for x in row] for row in np.asarray(U).reshape((U.shape[0], -1))] for U in T.factor_matrices],
             "fshapes": [[int(x) for x in np.asarray(U).shape] for U in T.factor_matrices]}
@@ -162,7 +248,7 @@ def _obs_tt(np, T):
 def _certs(np, a, T):
     """full eigen-decomposition (numpy LAPACK; certificate-checked in Coq) of the Gram matrix of the tensor hosvd
     looked at when it treated each position of dimorder; also the margin of the rank decision"""
-    X = np.array(a["data"], dtype=float).reshape(tuple(a["shape"]), order="F")
+    X = np.array(a["data"], dtype=float).reshape(tuple(a["shape"]), order="F")     # UNSCALED integer data (T is de-scaled too)
     d = X.ndim
     normsq = float((X ** 2).sum())
     tol = a["tol"][0] / a["tol"][1]
@@ -189,21 +275,44 @@ def run_impl(c):
     import numpy as np
     import pyttb as ttb
     a = c.args
+    k = int(a.get("sexp", 0))
     try:
-        X = tgen.mk_tensor(ttb, np, a["shape"], a["data"])
+        X = tgen.mk_tensor(ttb, np, a["shape"], [float(x) * 2.0 ** k for x in a["data"]])      # power-of-two scaling: exact
+        Xref = None
+        if "dtype" in a:                  # the same values held in a narrow integer dtype; float64 holder as reference
+            Xref = X
+            X = ttb.tensor(np.array(a["data"], dtype=a["dtype"]).reshape(tuple(a["shape"]), order="F").copy(order="F"))
+            if str(X.data.dtype) != a["dtype"]:
+                return {"exc": "HarnessError", "msg": f"tensor holds {X.data.dtype}, wanted {a['dtype']}"}
         if c.op == "hosvd_auto":
             tol = a["tol"][0] / a["tol"][1]
             T = ttb.hosvd(X, tol, verbosity=0, dimorder=list(a["dimorder"]), sequential=a["sequential"])
-            o = _obs_tt(np, T)
+            o = _obs_tt(np, T, k)
             o["certs"], o["margin"] = _certs(np, a, T)
+            if Xref is not None:
+                # hosvd squares the data in its own dtype (normxsqr wraps for uint8/int16): the budget only gets smaller, the bound
+                # still holds but more columns than the rule demands are kept -> the rank rule is not compared for these holders
+                o["margin"] = 0.0
             return o
         if c.op in ("hosvd_ranks", "hosvd_mixed"):
             tol = a["tol"][0] / a["tol"][1] if "tol" in a else 0.5
             ranks = np.array([int(r) for r in a["ranks"]], dtype=int)      # the caller's own array (A-25: must stay as given)
             T = ttb.hosvd(X, tol, verbosity=0, dimorder=list(a["dimorder"]), sequential=a["sequential"], ranks=ranks)
-            o = _obs_tt(np, T)
+            o = _obs_tt(np, T, k)
             o["ranks_after"] = [int(r) for r in ranks]
             return o
+        if c.op == "tucker_als" and a["maxiters"] == 0:
+            # the argument checks admit 0; no sweep can run, so nothing satisfying the property can be returned: the only
+            # admissible outcome is an explicit rejection (ValueError); anything else is reported
+            init = a["init"]
+            np.random.seed(12345)
+            try:
+                with contextlib.redirect_stdout(io.StringIO()):
+                    ttb.tucker_als(X.copy(), list(a["ranks"]), stoptol=a["stoptol"], maxiters=0, dimorder=list(a["dimorder"]),
+                                   init=init, printitn=0)
+            except ValueError as ex:
+                return {"rejected": "ValueError", "msg": str(ex)[:200]}
+            return {"exc": "none", "msg": "tucker_als(maxiters=0) returned a result without running a sweep"}
         if c.op == "tucker_als":
             fits = []
             res = None
@@ -217,7 +326,9 @@ def run_impl(c):
                                                 dimorder=list(a["dimorder"]), init=init, printitn=0)
                 fits.append(rq(out["fit"]))
                 if mi == a["maxiters"]:
-                    res = _obs_tt(np, M)
+                    res = _obs_tt(np, M, k)
+                    if a["init"] == "nvecs":          # the returned starting guess (None for the first mode of dimorder)
+                        res["init_f"] = [None if U0 is None else [[rq(x) for x in row] for row in np.asarray(U0)] for U0 in M0]
                     res["fit"] = rq(out["fit"])
                     res["iters"] = int(out["iters"])
             res["fits"] = fits
@@ -225,6 +336,27 @@ def run_impl(c):
     except Exception as ex:
         return {"exc": type(ex).__name__, "msg": str(ex)[:200]}
     raise ValueError(c.op)
+
+
+# ---------------------------------------------------------------- known findings
+TRIGGERS = {"tals_maxiters_zero": lambda c: c.op == "tucker_als" and c.args.get("maxiters") == 0}
+
+
+def _wit_n01():
+    import numpy as np
+    import pyttb as ttb
+    X = ttb.tensor(np.arange(1.0, 25.0).reshape((2, 3, 4), order="F"))
+    try:
+        with contextlib.redirect_stdout(io.StringIO()):
+            ttb.tucker_als(X, [1, 2, 2], maxiters=0, printitn=0)
+    except ValueError:
+        return None
+    except Exception as ex:
+        return f"tucker_als(X, [1,2,2], maxiters=0) raised {type(ex).__name__}: {ex}"
+    return "tucker_als(X, [1,2,2], maxiters=0) returned a result without running a sweep"
+
+
+WITNESSES = {"C10-N01": _wit_n01}
 
 
 # ---------------------------------------------------------------- Coq side
@@ -236,17 +368,36 @@ def _gT(o):
     return gqtt(o["core_shape"], o["core"], o["factors"])
 
 
+# tolerances (all relative to max(1, ||X||^2) of the UNSCALED integer data):
+#  * factor entries are on the 2^-40 grid (abs. error 4.6e-13): the reconstruction moves by delta <= ~1e-11 ||X||, so
+#    ||X-R||^2 moves by <= 2 tol ||X|| delta + delta^2  ->  slack 1e-9 tol + 1e-13 (>= 50x margin; tol = 1e-5 stays meaningful)
+#  * eigen certificate: residual G W - W diag(mu) and W^T W - I within 1e-10 (grid error <= 4e-12); the eigenvalues of G are then
+#    within ~4e-10 of mu, tail sums within ~2e-9: the rank rule is compared only when every tail sum is > 1e-8 away from the threshold
+CERT_EPS = Fraction(1, 10 ** 10)
+MARGIN = 1e-8
+
+
+def _relerr_slack(tol):
+    return Fraction(tol) / 10 ** 9 + Fraction(1, 10 ** 13)
+
+
+def extra_wrap(e, extra):
+    return e + extra
+
+
 def coq_check(c, o):
     a = c.args
     if "exc" in o:
         return "false"
+    if "rejected" in o:
+        return "true" if (c.op == "tucker_als" and a["maxiters"] == 0) else "false"
     X, T = _gX(a), _gT(o)
     if c.op == "hosvd_auto":
         tol = Fraction(a["tol"][0], a["tol"][1])
-        e = f"tucker_struct eps9 {X} {T} && relerr_ok eps9 {gq(tol * tol)} {X} {T}"
-        if o["margin"] > 1e-6:
+        e = f"tucker_struct eps9 {X} {T} && relerr_ok {gq(_relerr_slack(tol))} {gq(tol * tol)} {X} {T}"
+        if o["margin"] > MARGIN:
             certs = "[" + "; ".join(f"({gqmat(ct['W'])}, {gqlist(ct['mu'])})" for ct in o["certs"]) + "]"
-            e += f" && auto_ranks_ok eps8 {gq(tol * tol)} {gbool(a['sequential'])} {X} {gnlist(a['dimorder'])} {T} {certs}"
+            e += f" && auto_ranks_ok {gq(CERT_EPS)} {gq(tol * tol)} {gbool(a['sequential'])} {X} {gnlist(a['dimorder'])} {T} {certs}"
         return e
     if c.op == "hosvd_ranks":
         return (f"tucker_struct eps9 {X} {T} && ranks_are {T} {gnlist(a['ranks'])} && "
@@ -256,8 +407,9 @@ def coq_check(c, o):
                 f"nvec_eqb {gnlist(o['ranks_after'])} {gnlist(a['ranks'])}")
     if c.op == "tucker_als":
         fits = gqlist(o["fits"])
-        return (f"tucker_struct eps9 {X} {T} && ranks_are {T} {gnlist(a['ranks'])} && fit_ok eps9 {gq(o['fit'])} {X} {T} "
-                f"&& nondecr eps9 {fits} && Nat.leb {o['iters']} {a['maxiters'] - 1}")
+        extra = "".join(f" && invariant_ok eps8 {X} {n} {gqmat(U0)}" for n, U0 in enumerate(o.get("init_f", [])) if U0 is not None)
+        return extra_wrap(f"tucker_struct eps9 {X} {T} && ranks_are {T} {gnlist(a['ranks'])} && fit_ok eps9 {gq(o['fit'])} {X} {T} "
+                f"&& nondecr eps9 {fits} && Nat.leb {o['iters']} {a['maxiters'] - 1}", extra)
     raise ValueError(c.op)
 
 
@@ -285,10 +437,32 @@ def _py_ttm(shape, data, n, M):
     return new, out
 
 
+def _py_invariant(shp, X, n, U):
+    """G U = U (U^T G U) for the mode-n Gram matrix G of X (plain loops)"""
+    I, r = shp[n], len(U[0]) if U else 0
+    rest = [s for m, s in enumerate(shp) if m != n]
+    G = [[0.0] * I for _ in range(I)]
+    for sub in tgen.all_subs(shp):
+        for b in range(I):
+            t = list(sub)
+            t[n] = b
+            G[sub[n]][b] += X[_sub2ind(shp, sub)] * X[_sub2ind(shp, t)]
+    GU = [[sum(G[i][k] * U[k][j] for k in range(I)) for j in range(r)] for i in range(I)]
+    S = [[sum(U[k][i] * GU[k][j] for k in range(I)) for j in range(r)] for i in range(r)]
+    tr = max(1.0, sum(G[i][i] for i in range(I)))
+    for i in range(I):
+        for j in range(r):
+            if abs(GU[i][j] - sum(U[i][k] * S[k][j] for k in range(r))) > 1e-7 * tr:
+                return "does not span an invariant subspace of the mode Gram matrix of the data"
+    return None
+
+
 def oracle(c, o):
     a = c.args
     if "exc" in o:
         return f"admissible request raised {o['exc']}: {o.get('msg')}"
+    if "rejected" in o:
+        return None if (c.op == "tucker_als" and a["maxiters"] == 0) else f"admissible request rejected: {o.get('msg')}"
     shp = a["shape"]
     X = [float(x) for x in a["data"]]
     Us = [[[float(x) for x in row] for row in U] for U in o["factors"]]
@@ -315,7 +489,7 @@ def oracle(c, o):
     errsq = sum((x - y) ** 2 for x, y in zip(X, rec))
     if c.op == "hosvd_auto":
         tol = a["tol"][0] / a["tol"][1]
-        if errsq > tol * tol * normsq + 1e-8 * max(1.0, normsq):
+        if errsq > tol * tol * normsq + float(_relerr_slack(tol)) * max(1.0, normsq):
             return f"relative error {math.sqrt(errsq / normsq)} exceeds tol {tol}"
     if c.op in ("hosvd_ranks", "hosvd_mixed", "tucker_als"):
         got = [fs[1] for fs in o["fshapes"]]
@@ -327,6 +501,12 @@ def oracle(c, o):
         fit = float(o["fit"])
         if abs((1 - fit) ** 2 * normsq - errsq) > 1e-8 * max(1.0, normsq):
             return f"reported fit {fit} but recomputed 1-||X-T||/||X|| = {1 - math.sqrt(errsq / normsq)}"
+        for n, U0 in enumerate(o.get("init_f", [])):
+            if U0 is None:
+                continue
+            why = _py_invariant(shp, X, n, [[float(x) for x in row] for row in U0])
+            if why:
+                return f"init='nvecs' (data held as {a.get('dtype', 'float64')}): starting factor {n} {why}"
         f = [float(x) for x in o["fits"]]
         if any((1 - f[i + 1]) ** 2 > (1 - f[i]) ** 2 + 1e-8 for i in range(len(f) - 1)):
             return f"fit decreases over iterations: {f}"
